@@ -7,8 +7,12 @@
     atomicAddFloat 1658-1668, addAndResetCounts 1677-1691).
    SCOPE (documented, not verified by Coq):
    * a native-only histogram: no classic buckets (their protocol is C02's hist_machine), native exemplars
-     disabled, Observe without exemplar; NativeHistogramMinResetDuration = 0 (maybeReset returns false without a
-     shared operation, no timer): the reset strategy is NOT modelled.
+     disabled, Observe without exemplar.
+   * the reset strategy (maybeReset 968-992, reset 994-1013, resetCounts 1144-1158): h.now() is an oracle clock
+     (rs_clk) advanced by the op NAdvance; lastResetTime / resetScheduled are plain fields read and written under the
+     mutex in the step of the preceding shared operation; afterFunc only records a pending callback (rs_pend), which
+     the op NFire (a timer thread polling) runs if there is one -- at ANY time (the delay is not modelled: more
+     behaviours than the code has).
    * schema / threshold arithmetic is the sequential model of (Model/NativeHist.v: key_of, get_le, halve, u32_inc, u32_dec).
    * a sync.Map is a key-sorted association list; Range takes the key set at its schedule point and visits the
      keys in ascending order, skipping keys deleted meanwhile (sync.Map's contract; Go's order is unspecified);
@@ -27,12 +31,20 @@ Open Scope Z_scope.
 Definition nl (s : string) : list Z := of_string s.
 Arguments nl s%string.
 
-Inductive nop := NObserve (v : f64) | NWrite.
+Inductive nop := NObserve (v : f64) | NWrite | NFire | NAdvance (d : Z).
 
 (* which maintenance operation holds the mutex *)
 Inductive mctx := KW | KZ (sk : Z) (nzt : f64) | KD (cs : Z).
 (* deleteSyncMap in doubleBucketWidth: before the flip (then flip) or after the merge (then unlock) *)
 Inductive ephase := EPre (cs : Z) | EPost.
+
+(* who resets: limitBuckets' maybeReset (repeating the observation v) or the timer's reset() *)
+Inductive rctx := RL (v : f64) | RT.
+(* resetCounts of the cold set before the swap (R1) / of the formerly hot set after the cool-down (R2) *)
+Inductive rphase := R1 | R2.
+Inductive rfield := FSum | FCnt | FZb | FZt | FSch | FBn.
+(* h.now(), lastResetTime, resetScheduled, callbacks handed to afterFunc and not yet run *)
+Record rstate := mkRS { rs_clk : Z; rs_last : Z; rs_sched : bool; rs_pend : Z }.
 
 Definition smallest (ks : list Z) : Z := fold_left (fun res k => if Z.ltb k res then k else res) ks max_int32.
 
@@ -58,12 +70,12 @@ Definition cm_has (m : cmap) (k : Z) : bool := match cm_find m k with Some _ => 
 
 (* ---- one count set, the shared state ---- *)
 Record nset := mkNS { ns_sum : f64; ns_cnt : C; ns_zb : C; ns_zt : f64; ns_sch : Z; ns_bn : Z; ns_pos : cmap; ns_neg : cmap }.
-Record nsh := mkNH { nh_cfg : config; nh_hot : bool; nh_tk : Z; nh_s0 : nset; nh_s1 : nset; nh_mtx : bool }.
+Record nsh := mkNH { nh_cfg : config; nh_hot : bool; nh_tk : Z; nh_s0 : nset; nh_s1 : nset; nh_mtx : bool; nh_rs : rstate }.
 
 Definition nget (h : nsh) (b : bool) : nset := if b then nh_s1 h else nh_s0 h.
 Definition nput (h : nsh) (b : bool) (s : nset) : nsh :=
-  if b then mkNH (nh_cfg h) (nh_hot h) (nh_tk h) (nh_s0 h) s (nh_mtx h)
-  else mkNH (nh_cfg h) (nh_hot h) (nh_tk h) s (nh_s1 h) (nh_mtx h).
+  if b then mkNH (nh_cfg h) (nh_hot h) (nh_tk h) (nh_s0 h) s (nh_mtx h) (nh_rs h)
+  else mkNH (nh_cfg h) (nh_hot h) (nh_tk h) s (nh_s1 h) (nh_mtx h) (nh_rs h).
 Definition side (s : nset) (neg : bool) : cmap := if neg then ns_neg s else ns_pos s.
 Definition set_side (s : nset) (neg : bool) (m : cmap) : nset :=
   if neg then mkNS (ns_sum s) (ns_cnt s) (ns_zb s) (ns_zt s) (ns_sch s) (ns_bn s) (ns_pos s) m
@@ -74,10 +86,11 @@ Definition set_zb (s : nset) (x : C) := mkNS (ns_sum s) (ns_cnt s) x (ns_zt s) (
 Definition set_zt (s : nset) (x : f64) := mkNS (ns_sum s) (ns_cnt s) (ns_zb s) x (ns_sch s) (ns_bn s) (ns_pos s) (ns_neg s).
 Definition set_sch (s : nset) (x : Z) := mkNS (ns_sum s) (ns_cnt s) (ns_zb s) (ns_zt s) x (ns_bn s) (ns_pos s) (ns_neg s).
 Definition set_bn (s : nset) (x : Z) := mkNS (ns_sum s) (ns_cnt s) (ns_zb s) (ns_zt s) (ns_sch s) x (ns_pos s) (ns_neg s).
-Definition set_mtx (h : nsh) (m : bool) := mkNH (nh_cfg h) (nh_hot h) (nh_tk h) (nh_s0 h) (nh_s1 h) m.
+Definition set_mtx (h : nsh) (m : bool) := mkNH (nh_cfg h) (nh_hot h) (nh_tk h) (nh_s0 h) (nh_s1 h) m (nh_rs h).
+Definition set_rs (h : nsh) (r : rstate) := mkNH (nh_cfg h) (nh_hot h) (nh_tk h) (nh_s0 h) (nh_s1 h) (nh_mtx h) r.
 
 Definition nset0 (g : config) : nset := mkNS pzero c0 c0 (init_zt g) (g_schema g) 0 [] [].
-Definition ninit (g : config) : nsh := mkNH g false 0 (nset0 g) (nset0 g) false.
+Definition ninit (g : config) : nsh := mkNH g false 0 (nset0 g) (nset0 g) false (mkRS 0 0 false 0).
 
 (* what Write exposes: the populations as (key, cell) in key order (C04 proves that the spans/deltas
    encoding decodes to them) *)
@@ -101,10 +114,10 @@ Inductive npc :=
 | oZero (v : f64) (b : bool)
 | oCount (v : f64) (b : bool)
 (* limitBuckets *)
-| lLoadBn (b : bool)
-| lLock
-| lLoadIdx
-| lLoadBn2 (hb : bool)
+| lLoadBn (v : f64) (b : bool)
+| lLock (v : f64)
+| lLoadIdx (v : f64)
+| lLoadBn2 (v : f64) (hb : bool)
 (* maybeWidenZeroBucket before the flip *)
 | zLoadZt (hb : bool)
 | zRangeP (hb : bool)
@@ -163,10 +176,32 @@ Inductive npc :=
 | bBn (k : mctx) (c neg : bool) (r : nret) (kk : Z) (ks : list Z)
 | mStore (k : mctx) (c neg : bool) (r : nret) (kk : Z) (ks : list Z)
 | dStoreBn2 (c : bool)
-| xUnlock (r : nret).
+| xUnlock (r : nret)
+(* ---- reset: maybeReset (rk = RL v) and the timer's reset() (rk = RT) ---- *)
+| fCheck                                                   (* the timer thread polls for a pending callback *)
+| cAdv (d : Z)                                             (* the injected clock moves on *)
+| rLock
+| rLoadIdx
+| rStore (rk : rctx) (ph : rphase) (x : bool) (fd : rfield)   (* resetCounts: the six stores *)
+| rRange (rk : rctx) (ph : rphase) (x neg : bool)             (* ... deleteSyncMap *)
+| rDel (rk : rctx) (ph : rphase) (x neg : bool) (ks : list Z)
+(* cold.observe(value, bucket, true) by the mutex holder *)
+| hSumLoad (v : f64) (x : bool)
+| hSumCas (v : f64) (x : bool) (old : f64)
+| hLoadSch (v : f64) (x : bool)
+| hLoadZt (v : f64) (x : bool) (s : Z)
+| hBkLoad (v : f64) (x neg : bool) (k : Z)
+| hBkLos (v : f64) (x neg : bool) (k : Z)
+| hBkAdd (v : f64) (x neg : bool) (k : Z)
+| hBnAdd (v : f64) (x : bool)
+| hZero (v : f64) (x : bool)
+| hCount (v : f64) (x : bool)
+| rSwap (rk : rctx) (x : bool)
+| rCool (rk : rctx) (c : bool) (count : Z)
+| rSpin (rk : rctx) (c : bool) (count : Z).
 
 Definition nstart (o : nop) : npc + nret :=
-  match o with NObserve v => inl (oTicket v) | NWrite => inl wLock end.
+  match o with NObserve v => inl (oTicket v) | NWrite => inl wLock | NFire => inl fCheck | NAdvance d => inl (cAdv d) end.
 
 (* the key a cold bucket is merged into *)
 Definition tkey (k : mctx) (kk : Z) : Z := match k with KD _ => halve kk | _ => kk end.
@@ -201,6 +236,34 @@ Definition out_add (o : nout) (neg : bool) (k : Z) (x : C) : nout :=
   if neg then mkNOut (no_sch o) (no_zt o) (no_zc o) (no_count o) (no_sum o) (no_pos o) (no_neg o ++ [(k, x)])
   else mkNOut (no_sch o) (no_zt o) (no_zc o) (no_count o) (no_sum o) (no_pos o ++ [(k, x)]) (no_neg o).
 
+(* reset helpers *)
+Definition rfield_next (fd : rfield) : option rfield :=
+  match fd with FSum => Some FCnt | FCnt => Some FZb | FZb => Some FZt | FZt => Some FSch | FSch => Some FBn | FBn => None end.
+Definition rstore_set (g : config) (s : nset) (fd : rfield) : nset :=
+  match fd with
+  | FSum => set_sum s pzero | FCnt => set_cnt s c0 | FZb => set_zb s c0
+  | FZt => set_zt s (init_zt g) | FSch => set_sch s (g_schema g) | FBn => set_bn s 0
+  end.
+(* after resetCounts: R1 -> repeat the observation (RL) / swap (RT); R2 -> lastResetTime := now, (RT) resetScheduled := false, unlock *)
+Definition r_after (rk : rctx) (ph : rphase) (x : bool) : npc :=
+  match ph with
+  | R1 => match rk with RL v => hSumLoad v x | RT => rSwap RT x end
+  | R2 => xUnlock NUnit
+  end.
+Definition r_fin (rk : rctx) (ph : rphase) (r : rstate) : rstate :=
+  match ph with
+  | R1 => r
+  | R2 => mkRS (rs_clk r) (rs_clk r) (match rk with RT => false | RL _ => rs_sched r end) (rs_pend r)
+  end.
+Definition r_next (rk : rctx) (ph : rphase) (x neg : bool) (ks : list Z) : npc :=
+  match ks with
+  | _ :: _ => rDel rk ph x neg ks
+  | [] => if neg then rRange rk ph x false else r_after rk ph x
+  end.
+(* the state after the last shared operation of resetCounts: the plain-field writes that follow it *)
+Definition r_done (rk : rctx) (ph : rphase) (neg : bool) (ks : list Z) (h : nsh) : nsh :=
+  match ks with _ :: _ => h | [] => if neg then h else set_rs h (r_fin rk ph (nh_rs h)) end.
+
 Definition upd_side (h : nsh) (b neg : bool) (f : cmap -> cmap) : nsh :=
   nput h b (set_side (nget h b) neg (f (side (nget h b) neg))).
 
@@ -209,7 +272,7 @@ Definition nstep (h : nsh) (pc : npc) : option (nsh * (npc + nret)) :=
   match pc with
   (* ---- Observe ---- *)
   | oTicket v =>
-      Some (mkNH g (nh_hot h) (nh_tk h + 1) (nh_s0 h) (nh_s1 h) (nh_mtx h), inl (oSumLoad v (nh_hot h)))
+      Some (mkNH g (nh_hot h) (nh_tk h + 1) (nh_s0 h) (nh_s1 h) (nh_mtx h) (nh_rs h), inl (oSumLoad v (nh_hot h)))
   | oSumLoad v b => Some (h, inl (oSumCas v b (ns_sum (nget h b))))
   | oSumCas v b old =>
       if fbits_eq (ns_sum (nget h b)) old
@@ -232,13 +295,21 @@ Definition nstep (h : nsh) (pc : npc) : option (nsh * (npc + nret)) :=
   | oZero v b => Some (nput h b (set_zb (nget h b) (cadd (ns_zb (nget h b)) (cone v))), inl (oCount v b))
   | oCount v b =>
       Some (nput h b (set_cnt (nget h b) (cadd (ns_cnt (nget h b)) (cone v))),
-            if is_nan v || Z.eqb (g_max_buckets g) 0 then inr NUnit else inl (lLoadBn b))
+            if is_nan v || Z.eqb (g_max_buckets g) 0 then inr NUnit else inl (lLoadBn v b))
   (* ---- limitBuckets ---- *)
-  | lLoadBn b => Some (h, if Z.leb (ns_bn (nget h b)) (g_max_buckets g) then inr NUnit else inl lLock)
-  | lLock => if nh_mtx h then None else Some (set_mtx h true, inl lLoadIdx)
-  | lLoadIdx => Some (h, inl (lLoadBn2 (nh_hot h)))
-  | lLoadBn2 hb =>
-      Some (h, inl (if Z.leb (ns_bn (nget h hb)) (g_max_buckets g) then xUnlock NUnit else zLoadZt hb))
+  | lLoadBn v b => Some (h, if Z.leb (ns_bn (nget h b)) (g_max_buckets g) then inr NUnit else inl (lLock v))
+  | lLock v => if nh_mtx h then None else Some (set_mtx h true, inl (lLoadIdx v))
+  | lLoadIdx v => Some (h, inl (lLoadBn2 v (nh_hot h)))
+  | lLoadBn2 v hb =>
+      if Z.leb (ns_bn (nget h hb)) (g_max_buckets g) then Some (h, inl (xUnlock NUnit))
+      else
+        let rs := nh_rs h in
+        (* maybeReset: not configured / already scheduled / too early -> (schedule a reset once) and go on *)
+        if Z.eqb (g_min_reset g) 0 || rs_sched rs || Z.ltb (rs_clk rs - rs_last rs) (g_min_reset g) then
+          let rs' := if Z.ltb 0 (g_min_reset g) && negb (rs_sched rs)
+                     then mkRS (rs_clk rs) (rs_last rs) true (rs_pend rs + 1) else rs in
+          Some (set_rs h rs', inl (zLoadZt hb))
+        else Some (h, inl (rStore (RL v) R1 (negb hb) FSum))
   (* ---- maybeWidenZeroBucket ---- *)
   | zLoadZt hb => Some (h, inl (if fge (ns_zt (nget h hb)) (g_max_zt g) then dLoadSch hb else zRangeP hb))
   | zRangeP hb => Some (h, inl (zRangeN hb (smallest (cm_keys (ns_pos (nget h hb))))))
@@ -276,9 +347,9 @@ Definition nstep (h : nsh) (pc : npc) : option (nsh * (npc + nret)) :=
   (* ---- Write ---- *)
   | wLock => if nh_mtx h then None else Some (set_mtx h true, inl wFlip)
   | wFlip =>
-      Some (mkNH g (negb (nh_hot h)) (nh_tk h) (nh_s0 h) (nh_s1 h) (nh_mtx h), inl (xCool KW (nh_hot h) (nh_tk h)))
+      Some (mkNH g (negb (nh_hot h)) (nh_tk h) (nh_s0 h) (nh_s1 h) (nh_mtx h) (nh_rs h), inl (xCool KW (nh_hot h) (nh_tk h)))
   | xFlip k hb =>
-      Some (mkNH g (negb (nh_hot h)) (nh_tk h) (nh_s0 h) (nh_s1 h) (nh_mtx h), inl (xCool k hb (nh_tk h)))
+      Some (mkNH g (negb (nh_hot h)) (nh_tk h) (nh_s0 h) (nh_s1 h) (nh_mtx h) (nh_rs h), inl (xCool k hb (nh_tk h)))
   | xCool k c count =>
       Some (h, inl (if Z.eqb (clen (ns_cnt (nget h c))) count then after_cool k c count else xSpin k c count))
   | xSpin k c count => Some (h, inl (xCool k c count))
@@ -337,6 +408,54 @@ Definition nstep (h : nsh) (pc : npc) : option (nsh * (npc + nret)) :=
   | mStore k c neg r kk ks => Some (upd_side h c neg (fun m => cm_upd m kk (fun _ => c0)), inl (m_next k c neg r ks))
   | dStoreBn2 c => Some (nput h c (set_bn (nget h c) 0), inl (eRange EPost c true))
   | xUnlock r => Some (set_mtx h false, inr r)
+  (* ---- reset ---- *)
+  | fCheck =>
+      let rs := nh_rs h in
+      if Z.ltb 0 (rs_pend rs)
+      then Some (set_rs h (mkRS (rs_clk rs) (rs_last rs) (rs_sched rs) (rs_pend rs - 1)), inl rLock)
+      else Some (h, inr NUnit)
+  | cAdv d => let rs := nh_rs h in Some (set_rs h (mkRS (rs_clk rs + d) (rs_last rs) (rs_sched rs) (rs_pend rs)), inr NUnit)
+  | rLock => if nh_mtx h then None else Some (set_mtx h true, inl rLoadIdx)
+  | rLoadIdx => Some (h, inl (rStore RT R1 (negb (nh_hot h)) FSum))
+  | rStore rk ph x fd =>
+      Some (nput h x (rstore_set g (nget h x) fd),
+            inl (match rfield_next fd with Some fd' => rStore rk ph x fd' | None => rRange rk ph x true end))
+  | rRange rk ph x neg =>
+      let ks := cm_keys (side (nget h x) neg) in
+      Some (r_done rk ph neg ks h, inl (r_next rk ph x neg ks))
+  | rDel rk ph x neg ks =>
+      match ks with
+      | [] => Some (r_done rk ph neg [] h, inl (r_next rk ph x neg []))
+      | k :: ks' => Some (r_done rk ph neg ks' (upd_side h x neg (fun m => cm_del m k)), inl (r_next rk ph x neg ks'))
+      end
+  | hSumLoad v x => Some (h, inl (hSumCas v x (ns_sum (nget h x))))
+  | hSumCas v x old =>
+      if fbits_eq (ns_sum (nget h x)) old
+      then Some (nput h x (set_sum (nget h x) (fadd old v)), inl (if is_nan v then hCount v x else hLoadSch v x))
+      else Some (h, inl (hSumLoad v x))
+  | hLoadSch v x => Some (h, inl (hLoadZt v x (ns_sch (nget h x))))
+  | hLoadZt v x s =>
+      let zt := ns_zt (nget h x) in
+      let key := key_of s v in
+      Some (h, inl (if fgt v zt then hBkLoad v x false key
+                    else if flt v (fneg zt) then hBkLoad v x true key
+                    else hZero v x))
+  | hBkLoad v x neg k =>
+      Some (h, inl (if cm_has (side (nget h x) neg) k then hBkAdd v x neg k else hBkLos v x neg k))
+  | hBkLos v x neg k =>
+      if cm_has (side (nget h x) neg) k then Some (h, inl (hBkAdd v x neg k))
+      else Some (upd_side h x neg (fun m => cm_ins m k (cone v)), inl (hBnAdd v x))
+  | hBkAdd v x neg k => Some (upd_side h x neg (fun m => cm_upd m k (fun y => cadd y (cone v))), inl (hCount v x))
+  | hBnAdd v x => Some (nput h x (set_bn (nget h x) (u32_inc (ns_bn (nget h x)))), inl (hCount v x))
+  | hZero v x => Some (nput h x (set_zb (nget h x) (cadd (ns_zb (nget h x)) (cone v))), inl (hCount v x))
+  | hCount v x => Some (nput h x (set_cnt (nget h x) (cadd (ns_cnt (nget h x)) (cone v))), inl (rSwap (RL v) x))
+  | rSwap rk x =>
+      (* SwapUint64(&countAndHotIdx, coldIdx<<63 [+1]): x becomes hot, the ticket counter restarts *)
+      Some (mkNH g x (match rk with RL _ => 1 | RT => 0 end) (nh_s0 h) (nh_s1 h) (nh_mtx h) (nh_rs h),
+            inl (rCool rk (negb x) (nh_tk h)))
+  | rCool rk c count =>
+      Some (h, inl (if Z.eqb (clen (ns_cnt (nget h c))) count then rStore rk R2 c FSum else rSpin rk c count))
+  | rSpin rk c count => Some (h, inl (rCool rk c count))
   end.
 
 (* canonical labels: "<operation> <field>" as harness/internal/schedx.Canon reduces the instrumenter's labels *)
@@ -353,10 +472,10 @@ Definition nlabel (pc : npc) : list Z :=
   | oBnAdd _ _ => nl "AddUint32 nativeHistogramBucketsNumber"
   | oZero _ _ => nl "AddUint64 nativeHistogramZeroBucket"
   | oCount _ _ => nl "AddUint64 count"
-  | lLoadBn _ => nl "LoadUint32 nativeHistogramBucketsNumber"
-  | lLock => nl "Mutex.Lock"
-  | lLoadIdx => nl "LoadUint64 countAndHotIdx"
-  | lLoadBn2 _ => nl "LoadUint32 nativeHistogramBucketsNumber"
+  | lLoadBn _ _ => nl "LoadUint32 nativeHistogramBucketsNumber"
+  | lLock _ => nl "Mutex.Lock"
+  | lLoadIdx _ => nl "LoadUint64 countAndHotIdx"
+  | lLoadBn2 _ _ => nl "LoadUint32 nativeHistogramBucketsNumber"
   | zLoadZt _ => nl "LoadUint64 nativeHistogramZeroThresholdBits"
   | zRangeP _ => nl "Map.Range"
   | zRangeN _ _ => nl "Map.Range"
@@ -407,9 +526,58 @@ Definition nlabel (pc : npc) : list Z :=
   | mStore _ _ _ _ _ _ => nl "StoreInt64 bucket"
   | dStoreBn2 _ => nl "StoreUint32 nativeHistogramBucketsNumber"
   | xUnlock _ => nl "Mutex.Unlock"
+  | fCheck => nl "timer-poll"
+  | cAdv _ => nl "clock"
+  | rLock => nl "Mutex.Lock"
+  | rLoadIdx => nl "LoadUint64 countAndHotIdx"
+  | rStore _ _ _ fd =>
+      match fd with
+      | FSum => nl "StoreUint64 sumBits" | FCnt => nl "StoreUint64 count" | FZb => nl "StoreUint64 nativeHistogramZeroBucket"
+      | FZt => nl "StoreUint64 nativeHistogramZeroThresholdBits" | FSch => nl "StoreInt32 nativeHistogramSchema"
+      | FBn => nl "StoreUint32 nativeHistogramBucketsNumber"
+      end
+  | rRange _ _ _ _ => nl "Map.Range"
+  | rDel _ _ _ _ _ => nl "Map.Delete"
+  | hSumLoad _ _ => nl "LoadUint64 bits"
+  | hSumCas _ _ _ => nl "CompareAndSwapUint64 bits"
+  | hLoadSch _ _ => nl "LoadInt32 nativeHistogramSchema"
+  | hLoadZt _ _ _ => nl "LoadUint64 nativeHistogramZeroThresholdBits"
+  | hBkLoad _ _ _ _ => nl "Map.Load"
+  | hBkLos _ _ _ _ => nl "Map.LoadOrStore"
+  | hBkAdd _ _ _ _ => nl "AddInt64 (*int64)"
+  | hBnAdd _ _ => nl "AddUint32 nativeHistogramBucketsNumber"
+  | hZero _ _ => nl "AddUint64 nativeHistogramZeroBucket"
+  | hCount _ _ => nl "AddUint64 count"
+  | rSwap _ _ => nl "SwapUint64 countAndHotIdx"
+  | rCool _ _ _ => nl "LoadUint64 count"
+  | rSpin _ _ _ => nl "spin"
   end.
 
 Definition native_machine : machine := mkMachine nsh npc nop nret nstart nstep nlabel.
+
+(* The ledger of a run: the values whose Observe call took its ticket after the last completed swap of a reset
+   (maybeReset repeats the value of the call that triggered it, so that value opens the new ledger). *)
+Definition ledger_eff (pc : npc) (L : list f64) : list f64 :=
+  match pc with
+  | oTicket v => v :: L
+  | rSwap (RL v) _ => [v]
+  | rSwap RT _ => []
+  | _ => L
+  end.
+Definition pc_of (c : Conc.config native_machine) (tid : Z) : option npc :=
+  match nth_error (thr c) (Z.to_nat tid) with
+  | Some t => match t_cur t with Some (_, pc, _) => Some pc | None => None end
+  | None => None
+  end.
+Fixpoint ledger (c : Conc.config native_machine) (sched : list Z) (L : list f64) : list f64 :=
+  match sched with
+  | [] => L
+  | tid :: r =>
+      match sched_step native_machine c tid with
+      | Some c' => ledger c' r (match pc_of c tid with Some pc => ledger_eff pc L | None => L end)
+      | None => ledger c r L
+      end
+  end.
 
 End Cells.
 
